@@ -18,7 +18,7 @@ MANIFEST_TEXT = ("Lean 4 theorems over an arbitrary commutative ring with a conj
                  "ScalarMatrixView do with that pointer (copy the entry vs. re-point the handle) and whether transposedView holds a "
                  "reference or a copy is re-read from scalarvectorview.hh / scalarmatrixview.hh / transpose.hh; proved for all histories: "
                  "every executed operation (=, =k, +=, -=, axpy, *=, leftmultiply, rightmultiply, the 11 kernels, also through a "
-                 "transposed view) is exactly one write of the algebraic result into the storage of its target object, every other "
+                 "transposed view, row assignment T[i]=S[j] and T[i].axpy(k,S[j])) is exactly one write of the algebraic result into the storage of its target object, every other "
                  "storage cell (every operand taken as input only) is unchanged, every object keeps referring to the storage it was "
                  "created for, a transposed view shows the current content of its matrix. The model is run against "
                  "FieldMatrix/DynamicMatrix/DiagonalMatrix/ScalarMatrixView/transposed views (also nested, also as left factor) and "
@@ -62,9 +62,10 @@ RULE = ("cases: random field K in {int, double, complex<double>, GF(32003)} x op
         "FieldMatrix<K,1,1> +-scalar, scalar+-, +=s, -=s, conversion; vector +=,-=,+,-,unary -,+=s,-=s,*=,/=,*s,s*,/s,axpy,==,!=,"
         "operator*,dot, free dot/dotT, FieldVector<K,1>/scalar mixes incl. ==,!=,<,<=,>,>= and conversion; 10% object histories "
         "`seq`: 2..5 objects of one size family (1 / 2 / dynamic r x c up to 3) out of asVector(s), asVector(const s), FieldVector, "
-        "DynamicVector, asMatrix(s), asMatrix(const s), FieldMatrix, DynamicMatrix, DiagonalMatrix, transposedView of an earlier object, "
-        "then 1..8 operations drawn uniformly among the operand tuples the operation is executed for: object=object (4/16), =k, +=, -=, "
-        "axpy, *=k, leftmultiply, rightmultiply, a kernel (4/16; through a view half of the time when one exists)) x representation(s) in "
+        "DynamicVector, asMatrix(s), asMatrix(const s), FieldMatrix, DynamicMatrix, DiagonalMatrix, transposedView(A) / transpose(const reference_wrapper) of an earlier object, "
+        "then 1..8 operations drawn uniformly among the operand tuples the operation is executed for: object=object (4/19), =k, +=, -=, "
+        "axpy, *=k, leftmultiply, rightmultiply, a kernel (4/19; through a view half of the time when one exists), row ops T[i]=S[j] "
+        "(2/19), T[i].axpy(k,S[j])) x representation(s) in "
         "{FieldMatrix r x c (1..4), DynamicMatrix (1..6), DiagonalMatrix, ScalarMatrixView, transposed view / transposed copy / view "
         "of a view of these; FieldVector, DynamicVector, plain scalar} x small-integer entries biased to 0, +-1 (GF: 0, 1, p-1, p-2, "
         "small, random); distinct = distinct op lines; non-trivial = the oracle compared a computed result with the definition "
